@@ -152,17 +152,23 @@ theorem sorted_halfOf {lt : α → α → Bool} {adj : List α} (above : List α
 /-! ### mergeUp -/
 
 @[simp] theorem mergeUp_nil_left (lt : α → α → Bool) (b : List α) : mergeUp lt [] b = b := by
-  rw [mergeUp]
+  unfold mergeUp; cases b <;> simp [mergeUpF]
 
 @[simp] theorem mergeUp_nil_right (lt : α → α → Bool) (a : List α) : mergeUp lt a [] = a := by
+  unfold mergeUp
   cases a with
-  | nil => rw [mergeUp]
-  | cons x a => rw [mergeUp]
+  | nil => simp [mergeUpF]
+  | cons x a => cases h : (x :: a).length + ([] : List α).length <;> simp [mergeUpF]
 
 theorem mergeUp_cons_cons (lt : α → α → Bool) (x y : α) (a b : List α) :
     mergeUp lt (x :: a) (y :: b)
       = if lt x y then x :: mergeUp lt a (y :: b) else y :: mergeUp lt (x :: a) b := by
-  rw [mergeUp]
+  unfold mergeUp
+  have e : (x :: a).length + (y :: b).length = (a.length + (b.length + 1)) + 1 := by simp only [List.length_cons]; omega
+  rw [e, mergeUpF]
+  simp only [List.length_cons]
+  have e2 : a.length + 1 + b.length = a.length + (b.length + 1) := by omega
+  rw [e2]
 
 theorem mergeUp_perm (lt : α → α → Bool) : ∀ a b : List α, (mergeUp lt a b).Perm (a ++ b)
   | [], b => by simp only [mergeUp_nil_left, List.nil_append]; exact List.Perm.refl _
@@ -214,8 +220,19 @@ termination_by a b => a.length + b.length
 
 /-! ### sortBy -/
 
-theorem sortBy_perm (lt : α → α → Bool) (l : List α) : (sortBy lt l).Perm l :=
-  List.mergeSort_perm l _
+theorem insertBy_perm (lt : α → α → Bool) (x : α) : ∀ l : List α, (insertBy lt x l).Perm (x :: l)
+  | [] => List.Perm.refl _
+  | y :: t => by
+    simp only [insertBy]
+    split
+    · exact (List.Perm.cons y (insertBy_perm lt x t)).trans (List.Perm.swap x y t)
+    · exact List.Perm.refl _
+
+theorem sortBy_perm (lt : α → α → Bool) : ∀ l : List α, (sortBy lt l).Perm l
+  | [] => List.Perm.refl _
+  | x :: t => by
+    simp only [sortBy]
+    exact (insertBy_perm lt x _).trans (List.Perm.cons x (sortBy_perm lt t))
 
 theorem sortBy_length (lt : α → α → Bool) (l : List α) : (sortBy lt l).length = l.length :=
   (sortBy_perm lt l).length_eq
@@ -227,26 +244,41 @@ theorem sortBy_filter (lt : α → α → Bool) (p : α → Bool) (l : List α) 
 theorem mem_sortBy {lt : α → α → Bool} {x : α} {l : List α} : x ∈ sortBy lt l ↔ x ∈ l :=
   (sortBy_perm lt l).mem_iff
 
-theorem sorted_sortBy {lt : α → α → Bool} (sw : StrictWeak lt) (l : List α) : Sorted lt (sortBy lt l) := by
-  have h := List.pairwise_mergeSort (le := fun a b => !lt b a)
-    (by
-      intro a b c hab hbc
-      simp only [Bool.not_eq_true'] at hab hbc ⊢
-      exact sw.negTrans c b a hbc hab)
-    (by
-      intro a b
-      cases hba : lt b a
-      · simp only [Bool.not_false, Bool.true_or]
-      · simp only [sw.asymm b a hba, Bool.not_false, Bool.or_true])
-    l
-  unfold Sorted sortBy
-  exact h.imp (by intro a b hab; simpa only [Bool.not_eq_true'] using hab)
+theorem sorted_insertBy {lt : α → α → Bool} (sw : StrictWeak lt) (x : α) :
+    ∀ l : List α, Sorted lt l → Sorted lt (insertBy lt x l)
+  | [], _ => List.pairwise_singleton _ _
+  | y :: t, h => by
+    have h' := List.pairwise_cons.mp h
+    simp only [insertBy]
+    cases hyx : lt y x
+    · simp only [Bool.false_eq_true, if_false]
+      refine List.pairwise_cons.mpr ⟨?_, h⟩
+      intro z hz
+      rcases List.mem_cons.mp hz with rfl | hz
+      · exact hyx
+      · exact sw.negTrans z y x (h'.1 z hz) hyx
+    · simp only [if_true]
+      refine List.pairwise_cons.mpr ⟨?_, sorted_insertBy sw x t h'.2⟩
+      intro z hz
+      rcases List.mem_cons.mp ((insertBy_perm lt x t).mem_iff.mp hz) with rfl | hz
+      · exact sw.asymm y z hyx
+      · exact h'.1 z hz
+
+theorem sorted_sortBy {lt : α → α → Bool} (sw : StrictWeak lt) : ∀ l : List α, Sorted lt (sortBy lt l)
+  | [] => List.Pairwise.nil
+  | x :: t => by simp only [sortBy]; exact sorted_insertBy sw x _ (sorted_sortBy sw t)
 
 /-- sorting an already sorted list is the identity (no assumption on `lt`) -/
-theorem sortBy_of_sorted {lt : α → α → Bool} {l : List α} (h : Sorted lt l) : sortBy lt l = l := by
-  unfold sortBy
-  apply List.mergeSort_of_pairwise
-  exact h.imp (by intro a b hab; simp only [hab, Bool.not_false])
+theorem sortBy_of_sorted {lt : α → α → Bool} : ∀ {l : List α}, Sorted lt l → sortBy lt l = l
+  | [], _ => rfl
+  | x :: t, h => by
+    have h' := List.pairwise_cons.mp h
+    simp only [sortBy, sortBy_of_sorted h'.2]
+    cases t with
+    | nil => rfl
+    | cons y t' =>
+      have : lt y x = false := h'.1 y (by simp)
+      simp only [insertBy, this, Bool.false_eq_true, if_false]
 
 /-! ### leftoverOf / adjOf -/
 
